@@ -538,12 +538,11 @@ class SimulationBuilder:
             self.init_variable_values(entity, variables_json, str(instance_id))
 
         if persons_to_allocate:
+            first_own_group = len(entity_ids)
             entity_ids = entity_ids + list(persons_to_allocate)
-            for person_id in persons_to_allocate:
+            for offset, person_id in enumerate(persons_to_allocate):
                 person_index = persons_ids.index(person_id)
-                self.memberships[entity.plural][person_index] = entity_ids.index(
-                    person_id,
-                )
+                self.memberships[entity.plural][person_index] = first_own_group + offset
                 self.roles[entity.plural][person_index] = entity.flattened_roles[0]
             # Adjust previously computed ids and counts
             self.entity_ids[entity.plural] = entity_ids
